@@ -2,6 +2,7 @@
 // Oracle: no ASan/UBSan report, the call returns, SDK allocation accounting returns to the start value,
 // and the context still parses and verifies a known-good signature afterwards.
 #include "seeds.hpp"
+#include <unistd.h>
 #include "mutate.hpp"
 #include "sigmut.hpp"
 extern "C" {
@@ -63,6 +64,10 @@ static void tSignature(KSI_CTX *ctx, const HeapBuf &in, Case &c) {
     KSI_Signature_free(sig); sig = nullptr;
     res = KSI_Signature_parse(ctx, in.p, in.n, &sig); // internal policy at parse time
     if (res == KSI_OK && sig) { c.cls("sig:parsed-internal-ok"); followSignature(ctx, sig, c, false); }
+    // the same bytes read from a file (an eighth of the inputs; some of them padded to sizes around and beyond the largest element, 65539 octets)
+    { uint64_t hk = fnv64(in.p, in.n); if (hk % 8 == 3) { KSI_Signature_free(sig); sig = nullptr; static const size_t pads[] = {0, 0, 0, 65538, 65539, 65540, 65541, 70000}; size_t want = pads[(hk >> 8) % 8];
+            const char *sc = getenv("VERIF_SCRATCH"); std::string path = std::string(sc ? sc : "/tmp") + "/c12-sig-" + std::to_string((long long)getpid()) + ".ksig"; FILE *f = fopen(path.c_str(), "wb");
+            if (f) { if (in.n) fwrite(in.p, 1, in.n, f); if (want > in.n) { std::vector<unsigned char> z(want - in.n, 0); fwrite(z.data(), 1, z.size(), f); } fclose(f); int rf = KSI_Signature_fromFile(ctx, path.c_str(), &sig); if (rf == KSI_OK && sig) c.cls("sig:from-file-parsed"); c.cls(want ? (want > 65539 ? "sig:from-file:longer-than-the-largest-element" : "sig:from-file:padded") : "sig:from-file"); remove(path.c_str()); } } }
     KSI_Signature_free(sig);
 }
 static void tAggrPdu(KSI_CTX *ctx, const HeapBuf &in, Case &c, int ver) {
